@@ -302,14 +302,6 @@ func (r *seqRun) trace(seq []op) []string {
 	return out
 }
 
-func clipAll(ss []string, n int) []string {
-	out := make([]string, len(ss))
-	for i, s := range ss {
-		out[i] = clip(s, n)
-	}
-	return out
-}
-
 func stepBeliefModelOnly(kd *kind, belief []mstate, o op) ([]mstate, []string) {
 	seen := map[mstate]bool{}
 	var next []mstate
@@ -324,7 +316,7 @@ func stepBeliefModelOnly(kd *kind, belief []mstate, o op) ([]mstate, []string) {
 	return next, nil
 }
 
-// execSeq: Args store, alphabet ("core" or "full"), prefix ("op;op"), depth, mincheck.
+// execSeq: Args store, alphabet ("full", "core" or "mini"), prefix ("op;op"), depth, mincheck.
 // All sequences of length depth that start with prefix; nodes of depth <= mincheck are not
 // checked or counted here (the job with the empty prefix and depth = mincheck does that).
 func execSeq(t *testing.T, job vx.Job) (res vx.Result) {
